@@ -151,7 +151,9 @@ def run(ctx):
                 "<= 2 (quick) / <= 3 (thorough) departures from 'keep running the same task' for the two-task scenarios, <= 1 / <= 2 for three tasks. Scenarios: shared "
                 "account+endpoint, shared account on two endpoints, two accounts on one endpoint, CA reporting the account unknown, pending contact change, pending key "
                 "roll-over, CA forgot a registered account, pending key+contact change on two endpoints, three certificates; thorough: every sharing pattern of 3 "
-                "certificates over 2 accounts and 2 endpoints. A state is (scenario, per-task visible-operation trace).")
+                "certificates over 2 accounts and 2 endpoints. On top, a stateful exhaustive search of every two-task scenario (both tiers) and every three-task scenario (thorough): "
+                "all interleavings of visible operations, a state = the tuple of per-task operation traces (lock operations and response kinds/statuses), each state expanded once. "
+                "A state is (scenario, per-task visible-operation trace).")
     bounds = {}
     for base, bound in scenarios(ctx.quick):
         name = base["meta"]["scenario"]
@@ -181,19 +183,94 @@ def run(ctx):
             for (oracle, sig, ex, ob) in judge(r, o):
                 res.violation(oracle, sig, ex, ob, replay=r)
 
+        ntasks = len(base["meta"]["certs"])
+        stateful_here = (ntasks == 2 and (not ctx.quick or name.startswith(("s1", "s2-", "s3", "s4", "s5c")))) or (ntasks > 2 and not ctx.quick)
+        if ctx.quick and stateful_here:
+            bound = 1  # the exhaustive search below subsumes the deviation-bounded one; keep bound 1 as a cross-check
         st = explore(ctx.pool, base, bound, on_exec)
         if st["capped"]:
             res.caps_hit.append("%s: frontier capped" % name)
-        bounds[name] = {"deviation_bound": bound, "schedules": st["executions"], "per_depth": st["per_depth"], "decision_points": st["decision_points"],
-                        "distinct_request_orders": len(orders)}
+        bounds[name] = {"deviation_bound": bound, "schedules": st["executions"], "per_depth": st["per_depth"], "decision_points": st["decision_points"]}
+        if stateful_here:
+            # stateful exhaustive search: every interleaving of visible operations, states matched by per-task traces
+            ss = explore_stateful(ctx.pool, base, on_exec, max_runs=6000 if ntasks == 2 else 40000)
+            if ss["capped"]:
+                res.caps_hit.append("%s: stateful search capped at %d executions" % (name, ss["executions"]))
+            bounds[name]["stateful"] = {"states": ss["states"], "transitions": ss["transitions"], "executions": ss["executions"], "fixpoint": not ss["capped"]}
+        bounds[name]["distinct_request_orders"] = len(orders)
     res.extra["bound_completed"] = bounds
     res.assumptions = ["the lock wrapper waits by retrying try_read/try_write after each release instead of queueing in async-lock's fair queue; the scheduler explores every acquisition order, a superset of what the queue allows",
                        "invisible steps (file I/O on a certificate's own files, TCP connect, hook children) are run to completion between visible points: they touch nothing another task can observe",
                        "runtime worker threads only decide when a response or file operation completes; the scheduler enumerates exactly that order, so worker counts add no behaviour",
-                       "authorizations are served valid to keep schedules short (about 24 visible points per task)"]
+                       "authorizations are served valid to keep schedules short (about 24 visible points per task)",
+                       "state matching in the exhaustive search: a task's future depends on its own operation trace (which records every response kind and status it saw), on the lock holders (a function of the traces) and on CA/account state that the traces determine up to renaming of nonces, order numbers and key bytes, none of which is branched on"]
     return res
 
 
 def replay(ctx, rp):
     o = ctx.pool.call(rp["request"], 120.0)
     return [{"oracle": a, "signature": s, "expected": e, "observed": b} for (a, s, e, b) in judge(rp["request"], o)]
+
+
+# ---------------------------------------------------------------------------- stateful exhaustive search (thorough)
+
+def step_labels(o):
+    """Per decision: (task, canonical label of the operation it performs), with choice-point numbers replaced by
+    request kind and answer status (numbers differ between interleavings, kinds do not)."""
+    kind_of = {c["idx"]: c["kind"] for c in o.get("cps", [])}
+    status_of = {}
+    for e in o.get("events", []):
+        if e and e.get("ev") == "req":
+            status_of[e.get("cp")] = "%s%s" % (e.get("status"), "!" if e.get("jws_violations") else "")
+    out = []
+    for d in o.get("decisions", []):
+        lab = d["enabled"][d["choice"]].split(":", 1)[1]
+        if lab.startswith("resp:"):
+            cp = int(lab.split(":")[1])
+            lab = "resp:%s:%s" % (kind_of.get(cp), status_of.get(cp))
+        out.append((d["task"], lab))
+    return out
+
+
+def explore_stateful(pool, base, on_exec, max_runs=40000):
+    """Depth-first search over schedules with state matching: a state is the tuple of per-task operation traces so far.
+    Every state is expanded once (all its enabled alternatives); a run that reaches a visited state is not followed further."""
+    visited = set()
+    stack = [[]]
+    stats = {"executions": 0, "states": 0, "transitions": 0, "capped": False, "max_depth": 0}
+    while stack:
+        batch = [stack.pop() for _ in range(min(len(stack), 48))]
+        reqs = [dict(base, schedule=s) for s in batch]
+        outs = pool.map(reqs, 120.0)
+        stats["executions"] += len(reqs)
+        for s, r, o in zip(batch, reqs, outs):
+            if not o.get("ok"):
+                raise MachineryError("sched run failed: %s" % str({k: o.get(k) for k in ("machinery_error", "panic", "crashed", "timeout")})[:300])
+            if o.get("blocked_unexpected"):
+                raise MachineryError("scheduler bookkeeping disagrees with the real lock: %s" % o["blocked_unexpected"][:2])
+            if o.get("verdict") == "schedule-divergence":
+                raise MachineryError("schedule divergence: %s" % o.get("detail"))
+            on_exec(r, o, s)
+            labels = step_labels(o)
+            dec = o.get("decisions", [])
+            choices = [d["choice"] for d in dec]
+            ntasks = len(o.get("tasks", []))
+            traces = [[] for _ in range(ntasks)]
+            for i in range(len(dec)):
+                if i >= len(s):
+                    key = tuple(tuple(t) for t in traces)
+                    if key in visited:
+                        break
+                    visited.add(key)
+                    stats["states"] += 1
+                    for alt in range(len(dec[i]["enabled"])):
+                        stats["transitions"] += 1
+                        if alt != choices[i]:
+                            stack.append(choices[:i] + [alt])
+                t, lab = labels[i]
+                traces[t].append(lab)
+            stats["max_depth"] = max(stats["max_depth"], len(dec))
+        if stats["executions"] > max_runs:
+            stats["capped"] = True
+            break
+    return stats
